@@ -168,6 +168,11 @@ func checkC15(c *Ctx) {
 		c.check(pushesGlobal, "C15-DUP", "Zlisp.Duplicate", "global scope", dup.Pos(), "the parent's global scope is the bottom of the new scope stack", "Duplicate does not install the global scope")
 	}
 
+	// ---- symbols made during an expansion: the duplicate interns into the tables it shares with the caller, so
+	// the interning rules (C19: numbers tested unused until a free one is found, generated names tested absent,
+	// family shares the tables) are part of "expansion leaves the caller's state consistent"
+	checkC19(c)
+
 	// ---- C15-SUGAR
 	if fd := c.funcDecl("Parser.ParseExpression"); fd != nil {
 		sugar := map[string]string{"TokenCaret": "syntaxQuote", "TokenTilde": "unquote", "TokenTildeAt": "unquote-splicing", "TokenQuote": "quote"}
